@@ -23,6 +23,13 @@ pub(crate) fn lock_point(site: &'static str) {
     }
 }
 
+/// H5: the transport reader handed a complete fragment to the application layer (the moment it is processed)
+pub(crate) fn fragment_popped(source: u16, data: &[u8]) {
+    if let Some(core) = super::kernel::current() {
+        core.fragment_popped(source, data);
+    }
+}
+
 /// H3: is a simulated network installed for this thread?
 pub(crate) fn network_installed() -> bool {
     match super::kernel::current() {
